@@ -157,6 +157,10 @@ func (fw *FileWriter) WriteEntry(entry Entry) error {
 		return ErrFileClosed
 	}
 
+	if err := entry.Validate(); err != nil {
+		return err
+	}
+
 	shouldFlush := fw.buffer.Add(entry)
 	if shouldFlush {
 		return fw.flushLocked()
@@ -172,6 +176,14 @@ func (fw *FileWriter) WriteEntries(entries []Entry) error {
 
 	if fw.closed {
 		return ErrFileClosed
+	}
+
+	// Reject the whole batch up front so that a bad entry cannot leave the
+	// batch half-buffered.
+	for i := range entries {
+		if err := entries[i].Validate(); err != nil {
+			return err
+		}
 	}
 
 	for _, entry := range entries {
